@@ -178,6 +178,9 @@ pub enum Action {
     /// The worker's own clock is `secs` ahead of what the harness accounts for (a stalled worker
     /// process whose time-limit timer has not fired yet). Never generated; used by witnesses.
     AgeWorker { w: Wid, secs: u64 },
+    /// A client that waits for its job (`hq submit --wait`) goes away before the job has ended
+    /// (Ctrl-C): its connection is closed.
+    HangUp { client: usize },
     /// The link of this worker stops delivering in both directions (network partition, frozen
     /// host): the server keeps the worker registered - also past the worker's time limit - until
     /// it is removed for a lost heartbeat.
